@@ -302,7 +302,7 @@ func unresolvedDynamic(p *Program) []string {
 				continue
 			}
 			if u, ok := cc.Value.(*ssa.UnOp); ok {
-				if fv, ok := u.X.(*ssa.FreeVar); ok && fv.Name() == "cancel" {
+				if fv, ok := u.X.(*ssa.FreeVar); ok && paramName(fv) == "cancel" {
 					continue
 				}
 			}
